@@ -7,6 +7,7 @@ package main
 // offset of an executed opcode of the current script.
 
 import (
+	"go/constant"
 	"go/token"
 
 	"golang.org/x/tools/go/ssa"
@@ -132,4 +133,129 @@ func ruleSOwn(c *Ctx) {
 		}
 	}
 	c.MinInstances("S-own", len(got), len(threadFieldWriters))
+}
+
+// S-perscript (C05, C07): what belongs to one script does not leak into the next. The operation count, the
+// program offset, the early-return mark of a nested post-genesis OP_RETURN and the code-separator position
+// are all per script: on every path through a function that moves thread.scriptIdx (outside thread set-up)
+// each of them is reset - before or after the move, directly or by a callee that resets it on all its paths.
+var perScriptFields = []string{"numOps", "scriptOff", "earlyReturnAfterGenesis", "lastCodeSep"}
+
+func isFalseOrZero(v ssa.Value) bool {
+	k, ok := v.(*ssa.Const)
+	if !ok || k.Value == nil {
+		return false
+	}
+	if k.Value.Kind() == constant.Bool {
+		return !constant.BoolVal(k.Value)
+	}
+	return isZeroConst(v)
+}
+
+func ruleSPerScript(c *Ctx) {
+	setup := map[string]bool{"apply": true, "SetState": true}
+	// alwaysResets[fn][field]: every entry-to-exit path of fn stores the zero value to thread.field
+	memo := map[*ssa.Function]map[string]int{} // 0 unknown, 1 yes, 2 no, 3 in progress
+	var always func(fn *ssa.Function, field string) bool
+	isReset := func(ins ssa.Instruction, field string) bool {
+		if st, ok := threadFieldStore(ins, field); ok && isFalseOrZero(st.Val) {
+			return true
+		}
+		if call, ok := ins.(*ssa.Call); ok {
+			if sc := call.Call.StaticCallee(); sc != nil && len(sc.Blocks) > 0 && inScope(pkgPathOf(sc)) && sc.Signature.Recv() != nil && namedOf(sc.Signature.Recv().Type()) == "thread" {
+				return always(sc, field)
+			}
+		}
+		return false
+	}
+	// escapes: from instruction index `from` of blk an exit is reachable without passing a reset
+	escapesFwd := func(blk *ssa.BasicBlock, from int, field string) bool {
+		seen := map[*ssa.BasicBlock]bool{}
+		var walk func(b *ssa.BasicBlock, from int) bool
+		walk = func(b *ssa.BasicBlock, from int) bool {
+			for _, x := range b.Instrs[from:] {
+				if isReset(x, field) {
+					return false
+				}
+				switch x.(type) {
+				case *ssa.Return, *ssa.Panic:
+					return true
+				}
+			}
+			for _, s := range b.Succs {
+				if !seen[s] {
+					seen[s] = true
+					if walk(s, 0) {
+						return true
+					}
+				}
+			}
+			return false
+		}
+		return walk(blk, from)
+	}
+	// reachedBwd: the function's entry reaches instruction index `upto` of blk without passing a reset
+	reachedBwd := func(blk *ssa.BasicBlock, upto int, field string) bool {
+		seen := map[*ssa.BasicBlock]bool{}
+		var walk func(b *ssa.BasicBlock, upto int) bool
+		walk = func(b *ssa.BasicBlock, upto int) bool {
+			for i := upto - 1; i >= 0; i-- {
+				if isReset(b.Instrs[i], field) {
+					return false
+				}
+			}
+			if b.Index == 0 {
+				return true
+			}
+			for _, p := range b.Preds {
+				if !seen[p] {
+					seen[p] = true
+					if walk(p, len(p.Instrs)) {
+						return true
+					}
+				}
+			}
+			return false
+		}
+		return walk(blk, upto)
+	}
+	always = func(fn *ssa.Function, field string) bool {
+		if memo[fn] == nil {
+			memo[fn] = map[string]int{}
+		}
+		switch memo[fn][field] {
+		case 1:
+			return true
+		case 2, 3:
+			return false
+		}
+		memo[fn][field] = 3
+		ok := len(fn.Blocks) > 0 && !escapesFwd(fn.Blocks[0], 0, field)
+		memo[fn][field] = 2
+		if ok {
+			memo[fn][field] = 1
+		}
+		return ok
+	}
+	n := 0
+	for _, fn := range pkgFunctions(c.P, interpPkg) {
+		if setup[fn.Name()] {
+			continue
+		}
+		for _, b := range fn.Blocks {
+			for i, ins := range b.Instrs {
+				st, ok := threadFieldStore(ins, "scriptIdx")
+				if !ok {
+					continue
+				}
+				for _, f := range perScriptFields {
+					n++
+					leak := reachedBwd(b, i, f) && escapesFwd(b, i+1, f)
+					c.Check(!leak, "S-perscript", "scriptIdx-store/"+funcName(fn)+"/"+f, st.Pos(), "thread."+f+" is reset on every path through "+fn.Name()+" that moves to another script",
+						funcName(fn)+" moves to another script on a path that never resets thread."+f+": what the previous script left there (operations counted, offset, the early-return mark of a nested OP_RETURN, a separator position) is applied to the next script")
+				}
+			}
+		}
+	}
+	c.MinInstances("S-perscript", n, 8)
 }
